@@ -5,6 +5,7 @@ import (
 	"flag"
 	"fmt"
 	"os"
+	"os/exec"
 	"path/filepath"
 	"sort"
 	"strconv"
@@ -167,9 +168,9 @@ func cmdCheck(args []string) int {
 	fns := propertyFuncs(p, prop)
 	dir, _ := os.MkdirTemp("/var/tmp", "govc-"+prop+"-")
 	defer os.RemoveAll(dir)
-	opts := SolveOpts{Dir: dir, QuickMs: 10000, FallbackS: 30, Prop: prop}
+	opts := SolveOpts{Dir: dir, QuickMs: 1500, FallbackS: 45, Prop: prop}
 	if *tier == "thorough" {
-		opts = SolveOpts{Dir: dir, QuickMs: 30000, FallbackS: 120, Thorough: true, Prop: prop}
+		opts = SolveOpts{Dir: dir, QuickMs: 5000, FallbackS: 180, Thorough: true, Prop: prop}
 	}
 	runs := make([]*funcRun, len(fns))
 	var wg sync.WaitGroup
@@ -216,6 +217,14 @@ func cmdCheck(args []string) int {
 	assumed := map[string]int{}
 	notes := map[string]int{}
 	inlinedDeps := map[string]int{}
+	type pendKF struct {
+		f  *KnownFinding
+		o  *Obligation
+		r  *funcRun
+		or *OblResult
+	}
+	var pendingKF []pendKF
+	kfReplayed := 0
 	replayDir := filepath.Join(verifDir(), "replays", prop)
 	os.RemoveAll(replayDir)
 	viol := func(name, body string, hasInput bool) {
@@ -267,7 +276,7 @@ func cmdCheck(args []string) int {
 					continue
 				}
 				if f != nil {
-					knownLines = append(knownLines, fmt.Sprintf("KNOWN-FINDING: property=%s %s", prop, f.What))
+					pendingKF = append(pendingKF, pendKF{f, o, r, or})
 				} else {
 					viol(o.Name, violationBody(prop, r, or), or.Status == "sat")
 				}
@@ -284,12 +293,33 @@ func cmdCheck(args []string) int {
 				continue
 			}
 			if f := kf.lookup(prop, o); f != nil {
-				knownLines = append(knownLines, fmt.Sprintf("KNOWN-FINDING: property=%s %s", prop, f.What))
+				pendingKF = append(pendingKF, pendKF{f, o, r, or})
 				total--
 				continue
 			}
 			viol(o.Name, violationBody(prop, r, or), or.Status == "sat")
 			samples = append(samples, sample{o.Name, o.Class, o.Text, o.Pos, or.Solver, round3(or.Sec), "FAILED:" + or.Status})
+		}
+	}
+	// known findings are only reported while their recorded input still reproduces on the real code
+	if len(pendingKF) > 0 {
+		var names []string
+		seen := map[string]bool{}
+		for _, pk := range pendingKF {
+			if pk.f.Replay != "" && !seen[pk.f.Replay] {
+				seen[pk.f.Replay] = true
+				names = append(names, pk.f.Replay)
+			}
+		}
+		failed, out := runReplayTests(names)
+		for _, pk := range pendingKF {
+			if pk.f.Replay == "" || failed[pk.f.Replay] {
+				knownLines = append(knownLines, fmt.Sprintf("KNOWN-FINDING: property=%s %s", prop, pk.f.What))
+				kfReplayed++
+			} else {
+				// the recorded input no longer fails on the real code but the obligation is still not discharged: a different violation
+				viol(pk.o.Name, violationBody(prop, pk.r, pk.or)+"\nThe known finding "+pk.f.Key+" is listed, but its recorded input no longer reproduces on the real code:\n"+out, pk.or.Status == "sat")
+			}
 		}
 	}
 	if total == 0 && len(violations) == 0 {
@@ -345,6 +375,7 @@ func cmdCheck(args []string) int {
 		"solver_time_s":            round3(solverSec),
 		"samples":                  samples,
 		"known_findings":           knownLines,
+		"known_findings_replayed_on_real_code": kfReplayed,
 		"load_s":                   round3(p.LoadSec),
 		"contract_files":           p.Cons.Files,
 		"assume_clauses_in_contracts": p.Cons.NAssume,
@@ -442,4 +473,42 @@ func modelSummary(m string) string {
 		return m
 	}
 	return sb.String()
+}
+
+// runReplayTests runs the named tests of /verif/replay/*_test.go against /repo (go test -overlay) and returns the set of failing tests.
+func runReplayTests(names []string) (map[string]bool, string) {
+	failed := map[string]bool{}
+	if len(names) == 0 {
+		return failed, ""
+	}
+	ov := map[string]map[string]string{"Replace": {}}
+	ents, _ := os.ReadDir(filepath.Join(verifDir(), "replay"))
+	for _, e := range ents {
+		if strings.HasSuffix(e.Name(), "_test.go") {
+			ov["Replace"][filepath.Join(repoDir(), "zz_govc_"+e.Name())] = filepath.Join(verifDir(), "replay", e.Name())
+		}
+	}
+	d, _ := os.MkdirTemp("/var/tmp", "govc-replay-")
+	defer os.RemoveAll(d)
+	data, _ := json.Marshal(ov)
+	ovf := filepath.Join(d, "ov.json")
+	os.WriteFile(ovf, data, 0o644)
+	cmd := exec.Command("go", "test", "-overlay", ovf, "-vet=off", "-count=1", "-timeout", "120s", "-run", "^("+strings.Join(names, "|")+")$", "-v", ".")
+	cmd.Dir = repoDir()
+	cmd.Env = append(os.Environ(), "GOFLAGS=-mod=mod", "GOPROXY=off", "GOSUMDB=off", "GOTOOLCHAIN=local")
+	out, _ := cmd.CombinedOutput()
+	for _, l := range strings.Split(string(out), "\n") {
+		l = strings.TrimSpace(l)
+		if strings.HasPrefix(l, "--- FAIL: ") {
+			f := strings.Fields(l[len("--- FAIL: "):])
+			if len(f) > 0 {
+				failed[f[0]] = true
+			}
+		}
+	}
+	s := string(out)
+	if len(s) > 3000 {
+		s = s[len(s)-3000:]
+	}
+	return failed, s
 }
